@@ -11,7 +11,9 @@
   * `lt_zero_of_toRat_neg`: a finite double of negative value is `< 0` in the IEEE order;
   * `squeeze_rel`: a value squeezed between `x` and `x(1+δ)` is `x(1+δ')` with `|δ'| ≤ |δ|` (what a `clamp` to bounds on
     the far side of the exact value does to a relative error);
-  * `rel_bounds`, `tiny_le`, `lt_huge`, `u53_*`: bookkeeping for the range side conditions.
+  * `rel_bounds`, `tiny_le`, `lt_huge`, `u53_*`: bookkeeping for the range side conditions;
+  * `finite_of_add_finite`, `finite_of_sub_finite`, `finite_of_mul_finite`, `finite_of_div_finite`: a finite result has
+    finite operands (so "the final result does not overflow" is the only finiteness hypothesis an expression needs).
 -/
 import RosuModel.Lemmas.FloatErrMul
 namespace Rosu.FErr
@@ -256,5 +258,62 @@ theorem tiny_le (x : ℚ) (h : (2 : ℚ) ^ (-40 : Int) ≤ x) : (2 : ℚ) ^ (-10
 
 theorem lt_huge (x : ℚ) (h : x ≤ (2 : ℚ) ^ (40 : Int)) : x < (2 : ℚ) ^ (1023 : Int) :=
   lt_of_le_of_lt h (zpow_lt_zpow_right₀ (by norm_num) (by norm_num))
+
+/-! ### a finite result has finite operands -/
+
+theorem repack_finite (r : UnpackedFloat) (hc : Canon Format.binary64 r)
+    (h : (repack Format.binary64 r).isFinite = true) : r.isFinite = true := by
+  rcases repack_cases Format.binary64 (by decide) r hc with ⟨h1, _⟩ | ⟨s, m, e, p, _, _, h1⟩
+  · rw [h1] at h; exact h
+  · rw [h1] at h; cases h
+
+theorem uadd_finite (spec : Format) (a b : UnpackedFloat) (h : (UnpackedFloat.add spec a b).isFinite = true) :
+    a.isFinite = true ∧ b.isFinite = true := by
+  cases a <;> cases b <;> first | exact ⟨rfl, rfl⟩ | cases h | skip
+  all_goals (rename_i s s'; cases s <;> cases s' <;> cases h)
+
+theorem usub_finite (spec : Format) (a b : UnpackedFloat) (h : (UnpackedFloat.sub spec a b).isFinite = true) :
+    a.isFinite = true ∧ b.isFinite = true := by
+  cases a <;> cases b <;> first | exact ⟨rfl, rfl⟩ | cases h | skip
+  all_goals (rename_i s s'; cases s <;> cases s' <;> cases h)
+
+theorem umul_finite (spec : Format) (a b : UnpackedFloat) (h : (UnpackedFloat.mul spec a b).isFinite = true) :
+    a.isFinite = true ∧ b.isFinite = true := by
+  cases a <;> cases b <;> first | exact ⟨rfl, rfl⟩ | cases h
+
+theorem udiv_finite (spec : Format) (a b : UnpackedFloat) (h : (UnpackedFloat.div spec a b).isFinite = true) :
+    a.isFinite = true := by
+  cases a <;> cases b <;> first | rfl | cases h
+
+/-- a finite sum has finite summands (`±∞ + x` is `±∞` or NaN). -/
+theorem finite_of_add_finite (a b : Float) (h : (a + b).isFinite = true) : a.isFinite = true ∧ b.isFinite = true := by
+  have h' : (a + b).toModel.unpack.isFinite = true := h
+  rw [float_add_unpack] at h'
+  exact uadd_finite _ _ _ (repack_finite _ (add_canon _ _ _ (float_canon a) (float_canon b)) h')
+
+theorem finite_of_sub_finite (a b : Float) (h : (a - b).isFinite = true) : a.isFinite = true ∧ b.isFinite = true := by
+  have h' : (a - b).toModel.unpack.isFinite = true := h
+  rw [float_sub_unpack] at h'
+  exact usub_finite _ _ _ (repack_finite _ (sub_canon _ _ _ (float_canon a) (float_canon b)) h')
+
+theorem finite_of_mul_finite (a b : Float) (h : (a * b).isFinite = true) : a.isFinite = true ∧ b.isFinite = true := by
+  have h' : (a * b).toModel.unpack.isFinite = true := h
+  rw [float_mul_unpack] at h'
+  exact umul_finite _ _ _ (repack_finite _ (mul_canon _ _ _ (float_canon a) (float_canon b)) h')
+
+/-- a finite quotient has a finite numerator (the divisor may be `±∞`: `x / ±∞ = ±0`). -/
+theorem finite_of_div_finite (a b : Float) (h : (a / b).isFinite = true) : a.isFinite = true := by
+  have h' : (a / b).toModel.unpack.isFinite = true := h
+  rw [float_div_unpack] at h'
+  exact udiv_finite _ _ _ (repack_finite _ (div_canon _ _ _) h')
+
+/-- the absolute form of the addition / subtraction error. -/
+theorem sub_err_abs_float (a b : Float) (ha : a.isFinite = true) (hb : b.isFinite = true)
+    (hab : (a - b).isFinite = true) :
+    |toRat (a - b) - (toRat a - toRat b)| ≤ (2 : ℚ) ^ (-53 : Int) * |toRat a - toRat b| := by
+  obtain ⟨δ, hδ, hv⟩ := sub_err_float a b ha hb hab
+  have : toRat (a - b) - (toRat a - toRat b) = δ * (toRat a - toRat b) := by rw [hv]; ring
+  rw [this, abs_mul]
+  exact mul_le_mul_of_nonneg_right hδ (abs_nonneg _)
 
 end Rosu.FErr
